@@ -65,6 +65,17 @@ class C15(PureCheck):
                     for w in (0, n, n + 1, n + 2, n + 5):
                         yield {"op": "just", "f": f, "side": side, "w": w, "fill": 0}
                         yield {"op": "just", "f": f, "side": side, "w": w, "fill": 42}
+        # a style explicitly None on one run (bold=flag or None) and absent on another: not an attribute all characters share
+        NONE_BOLD = [2, 0, 3, 0, 0, 0, 0, 0]
+        for f in ([[[97, 98], NONE_BOLD], [[98, 97], list(ATTS[1])]], [[[97], list(ATTS[1])], [[98, 32], NONE_BOLD]],
+                  [[[97, 98], NONE_BOLD]], [[[], list(ATTS[0])], [[97], NONE_BOLD], [[98], list(ATTS[2])]]):
+            n = fmtlib.vlen(f)
+            for k, (m, args) in enumerate(DELEGATED):
+                yield {"op": "delegated", "f": f, "m": m, "argi": k}
+            for side in ("ljust", "rjust"):
+                for w in (n, n + 2):
+                    yield {"op": "just", "f": f, "side": side, "w": w, "fill": 0}
+                    yield {"op": "just", "f": f, "side": side, "w": w, "fill": 42}
         # join (natively implemented): items that are str, FmtStr, FmtStr without any run - leading, in the middle, last
         Z = {"k": "f", "v": []}
         A = {"k": "s", "v": [[[97], [0] * 8]]}
